@@ -58,4 +58,17 @@ def iter' (succ : Id → List Id) : Nat → List Id → List Id → List Id × L
     if x ∈ seen then iter' succ fuel todo seen
     else iter' succ fuel ((succ x).reverse ++ todo) (x :: seen)
 
+/-- one unit per node plus one per outgoing edge: a bound on the number of loop iterations of
+    `_iterate_related_revisions` (each node is expanded at most once, each stack entry popped once) -/
+def costSum (succ : Id → List Id) : List Id → Nat
+  | [] => 0
+  | n :: r => (succ n).length + 1 + costSum succ r
+
+def closureFuel (succ : Id → List Id) (nodes : List Id) (targets : List Id) : Nat :=
+  targets.length + costSum succ nodes + 1
+
+/-- the set of nodes reachable from `targets` along `succ` -/
+def closureOf (succ : Id → List Id) (nodes targets : List Id) : List Id :=
+  iter succ (closureFuel succ nodes targets) targets []
+
 end Model.Rev
